@@ -142,6 +142,35 @@ def Runner.step (cfg : Cfg) (pol : Policy) (r : Runner) (a : Act) : Runner :=
 def Runner.run (cfg : Cfg) (pol : Policy) (r : Runner) (acts : List Act) : Runner :=
   acts.foldl (Runner.step cfg pol) r
 
+/-! ### a running step calls `ctx.send_event` (`InternalContext.send_event`)
+
+`run_worker` hands every invocation a `RetryAttempt` whose `recovery_counts` are a copy of those of
+its in-progress entry, on the first attempt as on a retry; `send_event` tags the `TickAddEvent` it
+puts into the mailbox with exactly these counts: the sent event stays on the invocation's lineage. -/
+
+/-- the tick `ctx.send_event(e, step=target)` puts into the mailbox when called by the running
+invocation `(step, wid)`; `none` when no such invocation is in progress -/
+def sendTick (st : State) (step wid : Nat) (e : Ev) (target : Option Nat) : Option Tick :=
+  match (st.workers step).inProg.find? (fun ip => ip.wid == wid) with
+  | some ip => some (.addEvent { ev := e, rc := ip.rc } target)
+  | none => none
+
+/-- schedules with step-side sends: an `Act`, or a running invocation calling `ctx.send_event` -/
+inductive CtxAct
+  | act (a : Act)
+  | stepSend (step wid : Nat) (e : Ev) (target : Option Nat)
+deriving Repr
+
+def Runner.stepS (cfg : Cfg) (pol : Policy) (r : Runner) : CtxAct → Runner
+  | .act a => r.step cfg pol a
+  | .stepSend s w e tgt =>
+    match sendTick r.st s w e tgt with
+    | some t => r.step cfg pol (.external t)
+    | none => r
+
+def Runner.runS (cfg : Cfg) (pol : Policy) (r : Runner) (acts : List CtxAct) : Runner :=
+  acts.foldl (Runner.stepS cfg pol) r
+
 /-! ### start of a run: `_ControlLoopRunner.__init__` + the head of `run()` -/
 
 def insertWaiter (w : Waiter) : List Waiter → List Waiter
